@@ -16,12 +16,14 @@ CLAIMED = {
              'bounded model checking: the real text of check_if_response_is_matched, check_continuous_headers, is_parent_of, patched_is_valid and '
              'verify_mmr_proof against independent declarative specifications for every input within the bounds (<=4/5 headers, <=3/4 sampled '
              'difficulties, last-N<=2/3); z3 path queries on the MIR of both handlers: every write of trusted state is dominated by the Ok edge of every '
-             'check and follows no Err edge. Crypto uninterpreted; larger responses and multi-peer interplay outside the claim',
+             'check and follows no Err edge; a new last state announced inside a reply is accepted only behind check_verifiable_header; the PoW of EVERY header and the continuity of the reorg and '
+             'last-N sections are checked (slice of the proof handler, real text). Crypto uninterpreted; larger responses and multi-peer interplay outside the claim',
              'C01', KM + ' + ' + MM),
     'C02': c(['K-model', 'M'],
              'bounded model checking: the three handlers store / mark fetched / index only behind request match, last-hash, PoW, MMR, Merkle-root and '
              'body-commitment checks (MIR path queries, all data havoc; every filtered block examined); the SendBlock arm as real text over a model of '
-             'ckb-types Block/BlockView; request-match predicates, verify_extra_hash, add_block against specifications. RPC read paths outside the claim',
+             'ckb-types Block/BlockView; request-match predicates, verify_extra_hash, add_block against specifications; verify_mmr_proof binds the chain root that travels beside the last header to '
+             'that header (shared with C01). RPC read paths outside the claim',
              'C02', MM + ' + ' + KM),
     'C03': c(['K-model'],
              'bounded model checking of the per-step obligations along filter batch -> matched record -> proved block -> index writer -> query: one Storage::filter_block call on an '
@@ -82,8 +84,8 @@ CLAIMED = {
              '(quick tier: <= 1 switch, 8-bit block difficulties for the one-switch soundness / completeness variants)', 'C14', KR),
     'C15': c(['K-model'],
              'bounded model checking of the real text of sampling.rs (narrowed widths, libm pow/log as arbitrary values in their documented range) and of '
-             'build_prove_request_content: well-formedness of every request. "At least as many samples as the FlyClient bound requires" is declined '
-             '(no bit-precise libm in the solver)', 'C15', KM),
+             'build_prove_request_content: well-formedness of every request; the sample count equals max(1, min(m, blocks) - last_n) for the FlyClient bound m the code computes (last-N discounted once). '
+             'That m itself is the right bound for the configured adversary fraction is declined (m depends on log / pow, for which the solver has no bit-precise model)', 'C15', KM),
     'C16': c(['K-model', 'M'],
              'bounded model checking of the fetch bookkeeping (one arbitrary operation from an arbitrary table state) and of the status decision of '
              'fetch_header / fetch_transaction; store only behind the proof checks (MIR, shared with C02); in-flight fetches released / owned (MIR); add_fetched_header / add_fetched_tx always '
